@@ -150,12 +150,15 @@ def liveRecs (s e : Nat) (recs : List (Nat × Delta V)) : List (Nat × Delta V) 
 /-- `while in_memory.total_len() > max { pop_oldest() }` -/
 def trim (maxLen : Nat) (log : List (Nat × Delta V)) : List (Nat × Delta V) := log.drop (log.length - maxLen)
 
-/-- `Rollback::read` on a directory holding `recs` with the live range of the meta -/
-def Rb.read (maxLen : Nat) (range : Nat × Nat) (recs : List (Nat × Delta V)) : Rb V :=
-  { log := trim maxLen (liveRecs range.1 range.2 recs), pending := none,
-    seg := { startLive := range.1, endLive := range.2,
-             recs := if range.1 = 0 then [] else recs.filter (fun x => x.1 ≤ range.2) },
-    maxLen := maxLen }
+/-- `Rollback::read` on a directory holding `recs` with the live range of the meta (`seglog::open` refuses a range of
+which exactly one end is nil; a range naming records that do not exist is outside this model — `Store/SegOpen.lean`) -/
+def Rb.read (maxLen : Nat) (range : Nat × Nat) (recs : List (Nat × Delta V)) : Outcome Unit (Rb V) :=
+  if (range.1 = 0) ≠ (range.2 = 0) then .err ()
+  else .ok
+    { log := trim maxLen (liveRecs range.1 range.2 recs), pending := none,
+      seg := { startLive := range.1, endLive := range.2,
+               recs := if range.1 = 0 then [] else recs.filter (fun x => x.1 ≤ range.2) },
+      maxLen := maxLen }
 
 /-- abstraction to the specification-level log of `Api.Exec`: the deltas, newest first -/
 def Rb.absLog (r : Rb V) : List (Dlt.PMap V) := (r.log.map (·.2)).reverse
